@@ -98,7 +98,13 @@ class World:
                 c = int(pr[2:])
                 cbs.append((lambda c=c: self.tasks.__setitem__(c, self.loop.create_task(self._startup(c))),))
             elif pr.startswith("F="):
-                cbs.append(self._guard(self.p.frame_received, ashlib.mk_frame(pr[2:])))
+                fp = pr[2:].split(":")
+                if fp[0] in "KE" and fp[1] == "2":
+                    # reset / error frames arrive as bytes (independent encoder): every one of the 256 codes is a legal frame,
+                    # whether or not the library has a name for it
+                    cbs.append(self._guard(self.p.data_received, ashlib.spec_wire(fp[0], code=int(fp[2]))))
+                else:
+                    cbs.append(self._guard(self.p.frame_received, ashlib.mk_frame(pr[2:])))
             elif pr == "L1":
                 cbs.append(self._guard(self.p.connection_lost, ConnectionResetError("gone")))
             elif pr == "L0":
